@@ -413,8 +413,11 @@ def env_pass(prop, wd, cases, results, limit):
     n = len(cases)
     if n == 0:
         return 0, [], {}
-    step = max(1, n // limit)
-    idx = list(range(0, n, step))[:limit]
+    # the largest inputs first (size-gated code is where per-item recursion and shortcuts live), then an even spread
+    sizes = sorted(range(n), key=lambda i: -len(json.dumps(cases[i], default=str)))
+    big = sizes[:max(10, limit // 6)]
+    step = max(1, n // (limit - len(big)))
+    idx = sorted(set(big) | set(list(range(0, n, step))[:limit - len(big)]))
     out = os.path.join(wd, "envpass.out.json")
     job = {"prop": prop, "cases": [cases[i] for i in idx],
            "results": [envpass.norm(json.loads(json.dumps(results[i], default=str))) for i in idx], "out": out}
